@@ -530,11 +530,11 @@ func buildNative(pkg string, l *engine.Loaded) (string, error) {
 		return "", err
 	}
 	var sb strings.Builder
-	sb.WriteString("package main\n\nimport (\n\t\"fmt\"\n\t\"os\"\n\th \"" + pkg + "\"\n)\n\nfunc main() {\n\tfor _, a := range os.Args[1:] {\n\t\tswitch a {\n")
+	sb.WriteString("package main\n\nimport (\n\t\"fmt\"\n\t\"os\"\n\th \"" + pkg + "\"\n\t\"verif/symx\"\n)\n\nfunc main() {\n\tfor _, a := range os.Args[1:] {\n\t\tswitch a {\n")
 	for _, f := range fns {
 		fmt.Fprintf(&sb, "\t\tcase %q:\n\t\t\th.%s()\n", f, f)
 	}
-	sb.WriteString("\t\tdefault:\n\t\t\tfmt.Println(\"SYMX-ERROR unknown harness\", a)\n\t\t\tos.Exit(5)\n\t\t}\n\t}\n\tfmt.Println(\"SYMX-DONE\")\n}\n")
+	sb.WriteString("\t\tdefault:\n\t\t\tfmt.Println(\"SYMX-ERROR unknown harness\", a)\n\t\t\tos.Exit(5)\n\t\t}\n\t}\n\tsymx.Done()\n}\n")
 	if err := os.WriteFile(filepath.Join(dir, "main.go"), []byte(sb.String()), 0o644); err != nil {
 		return "", err
 	}
